@@ -258,6 +258,17 @@ def finish(rep: Report, technique_obligations, checker_cmd, trusted_base):
         "exhaustive": rep.extra.pop("exhaustive", False),
     }
     cov.update(rep.extra)
+    # keys the evidence schema gives a type keep that type; anything else a stream filed under such a name moves aside
+    typed = {"evaluations": int, "distinct_nontrivial": int, "rule": str, "samples": list, "states": int, "transitions": int,
+             "traces_validated_against_impl": int, "obligations": int, "discharged": int, "checker_cmd": str, "trusted_base": list,
+             "programs": int, "disagreements_checked": int, "explanation": str, "exhaustive": bool}
+    for key, ty in typed.items():
+        if key in cov and not (isinstance(cov[key], ty) and not (ty is int and isinstance(cov[key], bool))):
+            cov[key + "_detail"] = cov.pop(key)
+            if ty is bool:
+                cov[key] = bool(cov[key + "_detail"])
+            elif ty is int and hasattr(cov[key + "_detail"], "__len__"):
+                cov[key] = len(cov[key + "_detail"])
     ev = {
         "property_id": rep.prop,
         "tier": rep.tier,
